@@ -261,6 +261,13 @@ where
                 let dependency = tx_state.dependency;
                 tx_state.status = TransactionStatus::Finality;
                 drop(tx_state);
+                #[cfg(grevm_verif)]
+                crate::verif::p3(
+                    "finalize",
+                    finality_idx as i64,
+                    incarnation as i64,
+                    effective_lower_ts as i64,
+                );
 
                 let next_finality_idx = finality_idx + 1;
                 self.scheduler_ctx.publish_finality(next_finality_idx);
@@ -311,19 +318,47 @@ where
         lower_ts: usize,
     ) -> Option<(MutexGuard<'_, TxState>, usize)> {
         if finality_idx >= self.block_size || finality_idx >= self.scheduler_ctx.validation_idx() {
+            #[cfg(grevm_verif)]
+            crate::verif::p3("fin_check", finality_idx as i64, 0, crate::verif::NONE);
             return None;
         }
+        #[cfg(grevm_verif)]
+        crate::verif::p1("fin_cursor_ok", finality_idx as i64);
+        #[cfg(grevm_verif)]
+        crate::verif::before_lock(&self.tx_states[finality_idx]);
         // Read the validation frontier first, then decide status and timestamp eligibility under
         // the transaction lock. Together with contiguous finality, this prevents a candidate from
         // passing a rewind that invalidates it or an earlier transaction.
         let tx_state = self.tx_states[finality_idx].lock();
         if tx_state.status != TransactionStatus::Unconfirmed {
+            #[cfg(grevm_verif)]
+            crate::verif::note(
+                "fin_check",
+                [
+                    finality_idx as i64,
+                    1,
+                    crate::verif::status_code(&tx_state.status),
+                    crate::verif::NONE,
+                    crate::verif::NONE,
+                    crate::verif::NONE,
+                ],
+            );
             return None;
         }
 
         // Carry the largest rewind timestamp through the contiguous prefix: every later candidate
         // must have been validated after that rewind as well.
         let effective_lower_ts = max(lower_ts, self.scheduler_ctx.lower_timestamp(finality_idx));
+        #[cfg(grevm_verif)]
+        crate::verif::n6(
+            "fin_check",
+            finality_idx as i64,
+            2,
+            4,
+            self.scheduler_ctx.unconfirmed_timestamp(finality_idx) as i64,
+            effective_lower_ts as i64,
+            lower_ts as i64,
+        );
         (self.scheduler_ctx.unconfirmed_timestamp(finality_idx) > effective_lower_ts)
             .then_some((tx_state, effective_lower_ts))
     }
@@ -340,6 +375,10 @@ where
         while !self.is_aborted() && commit_idx < self.block_size {
             let previous_commit_idx = commit_idx;
             while commit_idx < self.scheduler_ctx.finality_idx() {
+                #[cfg(grevm_verif)]
+                crate::verif::p1("commit_take", commit_idx as i64);
+                #[cfg(grevm_verif)]
+                crate::verif::before_lock(&self.tx_results[commit_idx]);
                 let Some(tx_result) = self.tx_results[commit_idx].lock().take() else {
                     self.abort(AbortReason::ParallelError {
                         txid: commit_idx,
@@ -361,6 +400,16 @@ where
                 let outcome =
                     committer.commit(commit_idx, &self.txs[commit_idx], result, &mut output);
                 self.metrics.record_commit_time(commit_start.elapsed());
+                #[cfg(grevm_verif)]
+                crate::verif::p2(
+                    "commit_done",
+                    commit_idx as i64,
+                    match &outcome {
+                        Ok(CommitOutcome::Committed(_)) => 0,
+                        Ok(CommitOutcome::NeedsSequentialFallback) => 1,
+                        Err(_) => 2,
+                    },
+                );
                 match outcome {
                     Ok(CommitOutcome::Committed(committed)) => {
                         let next_commit_idx = committed.index();
@@ -448,17 +497,23 @@ where
                 // them. Each child has the same guard for panics in its scheduler role.
                 let _scope_cancel = self.cancel_on_panic();
                 let finality_thread = scope.spawn(|| {
+                    #[cfg(grevm_verif)]
+                    let _verif = crate::verif::thread_begin("finality");
                     let _cancel = self.cancel_on_panic();
                     self.run_finality_loop();
                     self.metrics.record_execution_time(start_time.elapsed());
                 });
                 let commit_thread = scope.spawn(|| {
+                    #[cfg(grevm_verif)]
+                    let _verif = crate::verif::thread_begin("commit");
                     let _cancel = self.cancel_on_panic();
                     self.run_commit_loop(&mut committer)
                 });
                 let mut workers = Vec::with_capacity(concurrency_level);
                 for _ in 0..concurrency_level {
                     workers.push(scope.spawn(|| {
+                        #[cfg(grevm_verif)]
+                        let _verif = crate::verif::thread_begin("worker");
                         let _cancel = self.cancel_on_panic();
                         let incarnation_db =
                             IncarnationDb::new(&state_view, &self.mv_memory, &beneficiary);
@@ -547,10 +602,19 @@ where
         WorkerDB: DatabaseRef<Error = DB::Error>,
     {
         let TxVersion { txid, incarnation } = tx_version.clone();
+        #[cfg(grevm_verif)]
+        crate::verif::before_lock(&self.tx_states[txid]);
         let mut tx_state = self.tx_states[txid].lock();
         // Cursor claims are advisory and may become stale after a rewind. The locked status and
         // incarnation are the authority for whether this task may execute.
         if tx_state.status != TransactionStatus::Executing {
+            #[cfg(grevm_verif)]
+            crate::verif::p3(
+                "exec_skip",
+                txid as i64,
+                incarnation as i64,
+                crate::verif::status_code(&tx_state.status),
+            );
             return None;
         }
         if tx_state.incarnation != incarnation {
@@ -561,10 +625,25 @@ where
             return None;
         }
         self.metrics.record_execution_attempt();
+        #[cfg(grevm_verif)]
+        crate::verif::p2("exec_begin", txid as i64, incarnation as i64);
 
         let tx_env = self.txs[txid].clone();
         let IncarnationExecution { result, accesses } =
             executor.execute_incarnation(tx_version.clone(), tx_env);
+        #[cfg(grevm_verif)]
+        crate::verif::p5(
+            "exec_ret",
+            txid as i64,
+            incarnation as i64,
+            match &result {
+                Ok(_) => 0,
+                Err(EVMError::Transaction(_)) => 1,
+                Err(_) => 2,
+            },
+            accesses.is_blocked() as i64,
+            accesses.blocked_by_beneficiary as i64,
+        );
 
         // If this incarnation expands its write set, already validated suffix transactions may
         // have missed a new predecessor and validation must rewind to this transaction. Existing
@@ -582,6 +661,8 @@ where
                     blocked_by_beneficiary,
                 } = accesses;
 
+                #[cfg(grevm_verif)]
+                crate::verif::before_lock(&self.tx_results[txid]);
                 let mut last_result = self.tx_results[txid].lock();
                 if let Some(last_result) = last_result.as_ref() {
                     for location in write_set.iter() {
@@ -595,6 +676,8 @@ where
                             let Some(mut written_transactions) = self.mv_memory.get_mut(location)
                         {
                             written_transactions.remove(&txid);
+                            #[cfg(grevm_verif)]
+                            crate::verif::n2("unpublish", txid as i64, crate::verif::loc_id(location));
                         }
                     }
                 } else {
@@ -606,6 +689,15 @@ where
                 } else {
                     beneficiary.record_execution(&tx_version, &speculative_result)
                 };
+                #[cfg(grevm_verif)]
+                crate::verif::p5(
+                    "ben_record",
+                    txid as i64,
+                    incarnation as i64,
+                    conflict as i64,
+                    history_published as i64,
+                    write_new_locations as i64,
+                );
                 if !history_published {
                     self.abort(AbortReason::ParallelError {
                         txid,
@@ -640,11 +732,15 @@ where
                 conflict = true;
                 let mut write_set = HashSet::new();
 
+                #[cfg(grevm_verif)]
+                crate::verif::before_lock(&self.tx_results[txid]);
                 let mut last_result = self.tx_results[txid].lock();
                 if let Some(last_result) = last_result.as_mut() {
                     write_set = std::mem::take(&mut last_result.write_set);
                     self.mark_mv_estimate(txid, &write_set);
                 }
+                #[cfg(grevm_verif)]
+                crate::verif::p3("ben_record_err", txid as i64, incarnation as i64, invalid_transaction as i64);
                 if !beneficiary.record_estimate(&tx_version) {
                     self.abort(AbortReason::ParallelError {
                         txid,
@@ -667,6 +763,8 @@ where
                     self.tx_dependency.add(txid, self.latest_unfinalized_blocker(&blocking_txs));
                 } else {
                     self.metrics.record_evm_error_conflict();
+                    #[cfg(grevm_verif)]
+                    crate::verif::p2("exec_err_gate", txid as i64, invalid_transaction as i64);
                     if self.scheduler_ctx.committed_idx() == txid {
                         if invalid_transaction {
                             self.abort(AbortReason::FallbackSequential);
@@ -681,10 +779,14 @@ where
 
         tx_state.status =
             if conflict { TransactionStatus::Conflict } else { TransactionStatus::Executed };
+        #[cfg(grevm_verif)]
+        crate::verif::p3("exec_status", txid as i64, conflict as i64, write_new_locations as i64);
         self.scheduler_ctx.executed(txid);
 
         if let Some(next) = next {
             self.scheduler_ctx.rewind_validation_to(txid);
+            #[cfg(grevm_verif)]
+            crate::verif::n2("exec_end", txid as i64, 0);
             drop(tx_state);
             return self.execution_task(next);
         }
@@ -695,18 +797,33 @@ where
                 self.scheduler_ctx.rewind_validation_to(txid);
             } else {
                 tx_state.status = TransactionStatus::Validating;
+                #[cfg(grevm_verif)]
+                crate::verif::n2("exec_end", txid as i64, 2);
                 return Some(Task::Validation(TxVersion::new(txid, incarnation)));
             }
         }
+        #[cfg(grevm_verif)]
+        crate::verif::n2("exec_end", txid as i64, 1);
         None
     }
 
     fn validate(&self, beneficiary: &Beneficiary, tx_version: TxVersion) -> Option<Task> {
         let txid = tx_version.txid;
         let incarnation = tx_version.incarnation;
+        #[cfg(grevm_verif)]
+        crate::verif::before_lock(&self.tx_states[txid]);
         let mut tx_state = self.tx_states[txid].lock();
+        #[cfg(grevm_verif)]
+        crate::verif::before_lock(&self.tx_results[txid]);
         let tx_result = self.tx_results[txid].lock();
         if tx_state.status != TransactionStatus::Validating {
+            #[cfg(grevm_verif)]
+            crate::verif::p3(
+                "val_skip",
+                txid as i64,
+                incarnation as i64,
+                crate::verif::status_code(&tx_state.status),
+            );
             return None;
         }
         if tx_state.incarnation != incarnation {
@@ -735,14 +852,27 @@ where
         // Capture the timestamp before scanning. A concurrent later rewind then has a newer lower
         // bound and prevents this validation from reaching finality.
         let ts = self.scheduler_ctx.logical_timestamp();
+        #[cfg(grevm_verif)]
+        crate::verif::p3("val_begin", txid as i64, incarnation as i64, ts as i64);
         // Every read must still resolve to the same latest preceding incarnation, and that write
         // must not be an estimate. A storage-origin read remains valid only when no preceding
         // multi-version write exists.
         let mut conflict = false;
         let mut dependency: Option<TxId> = None;
         for (location, version) in result.read_set.iter() {
+            #[cfg(grevm_verif)]
+            crate::verif::p2("val_iter", txid as i64, crate::verif::loc_id(location));
+            #[cfg(grevm_verif)]
+            let verif_conflict_before = conflict;
             if let ReadVersion::Beneficiary(expected) = version {
                 let validation = beneficiary.validate(txid, expected);
+                #[cfg(grevm_verif)]
+                crate::verif::n3(
+                    "val_ben",
+                    txid as i64,
+                    validation.is_valid() as i64,
+                    crate::verif::opt(validation.dependency()),
+                );
                 if !validation.is_valid() {
                     conflict = true;
                 }
@@ -774,7 +904,24 @@ where
             } else if !matches!(version, ReadVersion::Storage) {
                 conflict = true;
             }
+            #[cfg(grevm_verif)]
+            {
+                let (etx, einc) = match version {
+                    ReadVersion::MvMemory(v) => (v.txid as i64, v.incarnation as i64),
+                    _ => (crate::verif::NONE, crate::verif::NONE),
+                };
+                crate::verif::n5(
+                    "val_check",
+                    txid as i64,
+                    crate::verif::loc_id(location),
+                    etx,
+                    einc,
+                    (conflict && !verif_conflict_before) as i64,
+                );
+            }
         }
+        #[cfg(grevm_verif)]
+        crate::verif::p2("val_scanned", txid as i64, conflict as i64);
         if conflict {
             self.metrics.record_version_conflict();
             // Readers must not validate against writes produced by an invalid incarnation.
@@ -796,6 +943,8 @@ where
             self.scheduler_ctx.unconfirmed(txid, ts);
             TransactionStatus::Unconfirmed
         };
+        #[cfg(grevm_verif)]
+        crate::verif::p3("val_status", txid as i64, conflict as i64, ts as i64);
         tx_state.dependency = dependency;
 
         if conflict {
@@ -803,8 +952,12 @@ where
             let dep_tx = dependency.filter(|&dep| dep >= self.scheduler_ctx.finality_idx());
             self.tx_dependency.add(txid, dep_tx);
         }
+        #[cfg(grevm_verif)]
+        crate::verif::n2("val_end", txid as i64, conflict as i64);
         drop(tx_result);
         drop(tx_state);
+        #[cfg(grevm_verif)]
+        crate::verif::p1("val_released", txid as i64);
         if txid == self.scheduler_ctx.finality_idx() {
             self.finality_wait.notify();
         }
@@ -821,13 +974,29 @@ where
             if let Some(mut written_transactions) = self.mv_memory.get_mut(location) &&
                 let Some(entry) = written_transactions.get_mut(&txid)
             {
+                #[cfg(grevm_verif)]
+                crate::verif::n3(
+                    "mark_est",
+                    txid as i64,
+                    crate::verif::loc_id(location),
+                    entry.estimate as i64,
+                );
                 entry.estimate = true;
             }
         }
     }
 
     fn execution_task(&self, execute_id: TxId) -> Option<Task> {
+        #[cfg(grevm_verif)]
+        crate::verif::before_lock(&self.tx_states[execute_id]);
         let mut tx = self.tx_states[execute_id].lock();
+        #[cfg(grevm_verif)]
+        crate::verif::n3(
+            "exec_claim",
+            execute_id as i64,
+            crate::verif::status_code(&tx.status),
+            tx.incarnation as i64,
+        );
         match tx.status {
             TransactionStatus::Initial | TransactionStatus::Conflict => {
                 tx.status = TransactionStatus::Executing;
@@ -848,6 +1017,8 @@ where
 
     fn next(&self) -> Option<Task> {
         while !self.scheduler_ctx.finished() && !self.is_aborted() {
+            #[cfg(grevm_verif)]
+            crate::verif::p0("next_iter");
             if !self.scheduler_ctx.should_schedule(self.tx_dependency.index()) {
                 thread::yield_now();
             }
@@ -855,7 +1026,16 @@ where
             if let Some(validation_idx) =
                 self.scheduler_ctx.next_validation_idx(self.tx_dependency.index())
             {
+                #[cfg(grevm_verif)]
+                crate::verif::before_lock(&self.tx_states[validation_idx]);
                 let mut tx = self.tx_states[validation_idx].lock();
+                #[cfg(grevm_verif)]
+                crate::verif::n3(
+                    "val_claim",
+                    validation_idx as i64,
+                    crate::verif::status_code(&tx.status),
+                    tx.incarnation as i64,
+                );
                 // Rewinds can make cursor claims duplicate or stale; state under this lock decides
                 // whether a validation task still exists.
                 match tx.status {
